@@ -326,12 +326,12 @@ class Foreign(Family):
         for i in range(n):
             f = gf.gen_file(rng)
             yield dict(kind='wellformed', file=f)
-            if prop_id in ('C03', '?'):
+            if prop_id in ('C03', 'ALL'):
                 cands = [(k, d) for k in range(len(f['sections'])) for d in gf.DEFECTS if gf.applicable(f, k, d)]
                 picks = cands if tier != 'quick' else [rng.choice(cands) for _ in range(3)]
                 for (k, d) in picks:
                     yield dict(kind='defect', file=gf.inject(f, k, d, rng), base=f, at=k, defect=d)
-            if prop_id in ('C12', '?'):
+            if prop_id in ('C12', 'ALL'):
                 for _ in range(2):
                     g, added = gf.add_unknown_options(f, rng)
                     yield dict(kind='unknown-options', file=g, base=f, added={str(k): v for k, v in added.items()})
